@@ -63,6 +63,8 @@ pub struct Case<S: StoredVec<I = usize, T = usize>, G: StoredVec<I = usize, T = 
     ref_recorded: Option<Version>,
     /// C19 reference: the versions of all sources at the last successful compute call
     ver_at_compute: Option<Vec<u32>>,
+    /// an interrupted pass recorded a new version in memory only (nothing written since): a re-import legitimately shows the older one
+    version_unpersisted: bool,
     /// C19 reference: (results, recorded version) after each of the last successful compute calls that left results
     produced: Vec<(Vec<usize>, Version)>,
     gen_no: u32,
@@ -84,7 +86,7 @@ impl<S: StoredVec<I = usize, T = usize>, G: StoredVec<I = usize, T = usize>> Cas
         let n = shape(method).len();
         let src = (0..n).map(|k| open_src::<S>(&db, &format!("s{k}"), 1)).collect();
         let tgt = Some(EagerVec::<G>::forced_import(&db, "t", Version::new(1)).unwrap());
-        Case { _dir: dir, db, method: method.into(), window, from, src, vals: vec![vec![]; n], tgt, ver: vec![1; n], ref_recorded: None, ver_at_compute: None, produced: vec![], gen_no: 0, scratch_no: 0, exit: Exit::new() }
+        Case { _dir: dir, db, method: method.into(), window, from, src, vals: vec![vec![]; n], tgt, ver: vec![1; n], ref_recorded: None, ver_at_compute: None, version_unpersisted: false, produced: vec![], gen_no: 0, scratch_no: 0, exit: Exit::new() }
     }
 
     /// append `k` elements to every source, respecting the shape constraints
@@ -263,6 +265,7 @@ impl<S: StoredVec<I = usize, T = usize>, G: StoredVec<I = usize, T = usize>> Cas
                 }
             }
             self.ver_at_compute = Some(self.ver.clone());
+            self.version_unpersisted = false;
             if !inc.is_empty() {
                 self.produced.push((inc.clone(), recorded_after));
                 if self.produced.len() > 8 { self.produced.remove(0); }
@@ -292,6 +295,34 @@ impl<S: StoredVec<I = usize, T = usize>, G: StoredVec<I = usize, T = usize>> Cas
         (format!("{out} | R {} | S {}", fmt(&inc), if srcs.is_empty() { "-".into() } else { srcs }), fails)
     }
 
+    /// C19: a compute pass that is interrupted (the closure answers with a wrong index at position `len + k`): the results
+    /// produced so far stay in the buffer, nothing is written.  Only for the closure method `to`.
+    pub fn compute_fail(&mut self, k: usize) -> String {
+        if self.method != "to" { return "ok".into(); }
+        let mut t = self.tgt.take().unwrap();
+        let at = t.len() + k;
+        let n = self.src[0].len();
+        if at >= n { self.tgt = Some(t); return "ok".into(); }
+        let from = t.len();
+        let ver = self.src[0].version();
+        let presented = t.header().vec_version() + ver;
+        let recorded_before = t.header().computed_version();
+        let r = catch_unwind(AssertUnwindSafe(|| t.compute_to(from, n, ver, |i| if i == at { (i + 1, 0) } else { (i, i * 3 + 1) }, &self.exit)));
+        let mut out = "ok".to_string();
+        match r {
+            Ok(Err(_)) => {}
+            Ok(Ok(())) => out = "ok | O fail:C19: a compute pass whose closure answered with a wrong index succeeded".into(),
+            Err(_) => out = "ok | O fail:panic".into(),
+        }
+        // the pass presented its version before it failed: what the header records now is the reference
+        if t.header().computed_version() == presented { self.ref_recorded = Some(presented); }
+        // whatever the failed pass left in memory (a new recorded version, buffered results) has not been written
+        if t.header().computed_version() != recorded_before || t.len() != t.stored_len() { self.version_unpersisted = true; }
+        self.ver_at_compute = None;
+        self.tgt = Some(t);
+        out
+    }
+
     pub fn target_op(&mut self, op: &str) -> String {
         let mut t = self.tgt.take().unwrap();
         let out = match op {
@@ -316,7 +347,10 @@ impl<S: StoredVec<I = usize, T = usize>, G: StoredVec<I = usize, T = usize>> Cas
                         return format!("err:C19: after re-import the vector holds {} results that were produced under {:?} but its header records {:?}", now.len(), under[0], lab);
                     }
                 }
-                if nonempty && t.header().computed_version() != rec { Err(format!("C19: recorded version {:?} became {:?} across re-import", rec, t.header().computed_version())) } else { Ok(()) }
+                let unpersisted = std::mem::replace(&mut self.version_unpersisted, false);
+                // … and the version the next call is compared with is the one that came back from disk
+                if unpersisted { self.ref_recorded = None; }
+                if nonempty && !unpersisted && t.header().computed_version() != rec { Err(format!("C19: recorded version {:?} became {:?} across re-import", rec, t.header().computed_version())) } else { Ok(()) }
             }
             _ => Ok(()),
         };
@@ -354,6 +388,7 @@ fn run_case<S: StoredVec<I = usize, T = usize>, G: StoredVec<I = usize, T = usiz
                 let o = if fails.is_empty() { "ok".to_string() } else { format!("fail:{}", fails.join("; ")) };
                 out.push(format!("{obs} | O {o}"));
             }
+            "cfail" => { let r = case.as_mut().unwrap().compute_fail(num(1) as usize); out.push(r); }
             "twrite" | "tflush" | "treimport" => {
                 let r = case.as_mut().unwrap().target_op(ws[0]);
                 out.push(if r.starts_with("err:C19") { format!("ok | O fail:{}", &r[4..]) } else { r });
@@ -381,6 +416,15 @@ fn gen_case(seed: u64, case_no: u64, len: u64, c19: bool) -> Vec<String> {
     let n_ops = len / 2 + r.below(len + 1);
     let nsrc = shape(m).len() as u64;
     for _ in 0..n_ops {
+        if c19 && m == "to" && n > computed + 1 && r.chance(1, 7) {
+            // an interrupted pass: `k` results stay buffered; the next call may resume behind them
+            let k = r.below(((n - computed - 1) as u64).min(6)) as usize;
+            lines.push(format!("cfail {k}"));
+            // nothing stale below `computed`: the buffered results are valid too; otherwise the stale part still has to be redone
+            if first_changed >= computed { first_changed = (computed + k).min(n); }
+            computed += k;
+            continue;
+        }
         match r.weighted(&[30, 10, 34, 6, 4, 4, if c19 { 7 } else { 1 }, if c19 { 7 } else { 1 }]) {
             0 => {
                 // now and then a source longer than one cursor chunk (4096 elements): window reads then cross a chunk boundary
@@ -388,7 +432,9 @@ fn gen_case(seed: u64, case_no: u64, len: u64, c19: bool) -> Vec<String> {
                 lines.push(format!("append {k} {}", r.below(1 << 30))); n += k;
             }
             1 if n > 0 => {
-                let t = match r.below(4) { 0 => 0, 1 => n - 1, 2 => n / 2, _ => r.below(n as u64) as usize };
+                // now and then exactly a whole number of pages of the (compressed) result: 2048 eight-byte elements per page
+                let t = if n > 2048 && r.chance(1, 3) { (n / 2048) * 2048 - if r.chance(1, 4) { 2048.min((n / 2048) * 2048 - 2048) } else { 0 } }
+                    else { match r.below(4) { 0 => 0, 1 => n - 1, 2 => n / 2, _ => r.below(n as u64) as usize } };
                 lines.push(format!("trunc {t}"));
                 // the last group of count_from_indexes also depends on the length of the grouped vector
                 first_changed = first_changed.min(if m == "count_from_indexes" { t.saturating_sub(1) } else { t });
@@ -397,7 +443,8 @@ fn gen_case(seed: u64, case_no: u64, len: u64, c19: bool) -> Vec<String> {
             2 => {
                 // the caller passes a starting index no greater than the first changed source index
                 let limit = first_changed.min(computed);
-                let mf = match r.below(5) { 0 => 0, 1 | 2 => limit, 3 => limit.saturating_sub(1), _ => r.below(limit as u64 + 1) as usize };
+                let mf = if limit >= 2048 && r.chance(1, 3) { (limit / 2048) * 2048 }
+                    else { match r.below(5) { 0 => 0, 1 | 2 => limit, 3 => limit.saturating_sub(1), _ => r.below(limit as u64 + 1) as usize } };
                 // count_from_indexes: the last group depends on the other vector's length
                 let mf = if m == "count_from_indexes" { mf.min(computed.saturating_sub(1)) } else { mf };
                 let cap = *r.pick(&[0usize, 1, 2, 3, 7, 64]);
